@@ -37,6 +37,7 @@ enum Act {
     LazyAsStr,
     LazyCloneAsStrDrop,
     LazyCloneOnly,
+    LazyCloneFrom,
     OwnedGetA,
     OwnedGetB,
     OwnedCloneGet,
@@ -66,6 +67,40 @@ fn act_lazy(a: Act, lv: &LazyValue) -> Result<(), String> {
         Act::LazyCloneOnly => {
             let c = lv.clone();
             drop(c);
+            Ok(())
+        }
+        Act::LazyCloneFrom => {
+            // a value that was already read is overwritten in place with the shared one (which
+            // another thread may be decoding right now), and the other way round
+            const OTHER: &str = r#"{"o":"first\tvalue \u00e9"}"#;
+            const OTHER_WANT: &str = "first\tvalue \u{e9}";
+            let Ok(mut dst) = sonic_rs::get(OTHER, &["o"]) else { return Err("get(OTHER) failed".into()) };
+            if dst.as_str() != Some(OTHER_WANT) {
+                return Err(format!("other.as_str = {:?}", dst.as_str()));
+            }
+            dst.clone_from(lv);
+            if dst.as_raw_str() != lv.as_raw_str() {
+                return Err(format!("clone_from: raw text {:?}", dst.as_raw_str()));
+            }
+            match dst.as_str() {
+                Some(s) if s == LAZY_WANT => {}
+                other => return Err(format!("as_str after clone_from(shared) = {:?}", other)),
+            }
+            let Ok(fresh) = sonic_rs::get(OTHER, &["o"]) else { return Err("get(OTHER) failed".into()) };
+            let mut c = lv.clone();
+            if c.as_str() != Some(LAZY_WANT) {
+                return Err(format!("clone.as_str = {:?}", c.as_str()));
+            }
+            c.clone_from(&fresh);
+            match c.as_str() {
+                Some(s) if s == OTHER_WANT => {}
+                other => return Err(format!("as_str after clone_from(unread) = {:?}", other)),
+            }
+            let Ok(plain) = sonic_rs::get(OTHER, &[] as &[&str]) else { return Err("get(OTHER, []) failed".into()) };
+            c.clone_from(&plain);
+            if c.as_str().is_some() || c.as_raw_str() != OTHER {
+                return Err(format!("after clone_from(object): as_str {:?}, raw {:?}", c.as_str(), c.as_raw_str()));
+            }
             Ok(())
         }
         _ => Ok(()),
@@ -149,6 +184,7 @@ const SCENARIOS: &[(&str, bool, &[Act])] = &[
     ("lazy:reader+clone-reader", true, &[Act::LazyAsStr, Act::LazyCloneAsStrDrop]),
     ("lazy:3-readers-and-clone", true, &[Act::LazyAsStr, Act::LazyCloneAsStrDrop, Act::LazyAsStr]),
     ("lazy:reader+clone-only", true, &[Act::LazyAsStr, Act::LazyCloneOnly]),
+    ("lazy:reader+clone_from", true, &[Act::LazyAsStr, Act::LazyCloneFrom]),
     ("owned:2-getters", false, &[Act::OwnedGetA, Act::OwnedGetB]),
     ("owned:getter+clone", false, &[Act::OwnedGetA, Act::OwnedCloneGet]),
     ("owned:3-mixed", false, &[Act::OwnedGetB, Act::OwnedCloneGet, Act::OwnedAsObject]),
